@@ -904,7 +904,7 @@ func c10Types() []c10Type {
 		tys = append(tys, c10Type{name: "prim:" + p, t: RType{Primitive: p}})
 	}
 	names := append([]string{}, schema.Top...)
-	names = append(names, "Tlong", "Tstr", "CK")
+	names = append(names, "Tlong", "Tstr", "CK", "Alias", "Alias2") // Alias: includes only, no own fields
 	for _, n := range names {
 		tys = append(tys, c10Type{name: n, t: ref(n)})
 	}
